@@ -86,9 +86,9 @@ fn gen_register(rng: &mut Rng, khl: usize, certl: usize, sigl: usize) -> (ctap1:
         let n = if rng.chance(7, 8) { 65 } else { rng.usize(66) };
         rng.bytes(n)
     };
-    let mut kh = rng.bytes(khl);
-    let mut cert = rng.bytes(certl);
-    let mut sig = rng.bytes(sigl);
+    let mut kh = crate::schema::gen_bytes_content(rng, khl);
+    let mut cert = crate::schema::gen_bytes_content(rng, certl);
+    let mut sig = crate::schema::gen_bytes_content(rng, sigl);
     let r = register::Response {
         header_byte: header,
         public_key: hb(&mut pk),
@@ -105,7 +105,7 @@ fn gen_register(rng: &mut Rng, khl: usize, certl: usize, sigl: usize) -> (ctap1:
 
 fn gen_authenticate(rng: &mut Rng, sigl: usize, count: u32) -> (ctap1::Response, Parts) {
     let up = rng.u64() as u8;
-    let mut sig = rng.bytes(sigl);
+    let mut sig = crate::schema::gen_bytes_content(rng, sigl);
     let r = authenticate::Response {
         user_presence: up,
         count,
